@@ -736,6 +736,25 @@ theorem chpen_effect (caps : Caps) (cache : PenCache) (pen : PenReq) (vt : VTSta
 
 /-! ### Histories of requests and pen changes -/
 
+/-- A window resize (`VTState.resize`) leaves a well-formed screen well formed: the cursor is clamped into the new
+    screen, the margins are those of the new screen, the tokenizer is untouched. -/
+theorem resize_wf (vt : VTState) (hw : Spec.WF vt) (l c : Int) (fresh : Int → Int → Cell) (hl : 1 ≤ l) (hc : 1 ≤ c) :
+    Spec.WF (vt.resize l c fresh) := by
+  obtain ⟨g, r1, r2, c1, c2, m1, m2, m3, m4⟩ := hw
+  refine ⟨g, ?_, ?_, ?_, ?_, rfl, rfl, rfl, rfl⟩ <;> simp only [VTState.resize] <;> omega
+
+/-- A resize changes only the cells that were not on the old screen; everything the requests' specifications depend
+    on besides size, cursor and margins (DECLRMM, rendering attributes) is kept. -/
+theorem resize_keeps (vt : VTState) (l c : Int) (fresh : Int → Int → Cell) :
+    (vt.resize l c fresh).lines = l ∧ (vt.resize l c fresh).cols = c ∧
+    (vt.resize l c fresh).declrmm = vt.declrmm ∧ (vt.resize l c fresh).bg = vt.bg ∧ (vt.resize l c fresh).rv = vt.rv ∧
+    ∀ l' c', l' < vt.lines → c' < vt.cols → (vt.resize l c fresh).grid l' c' = vt.grid l' c' := by
+  refine ⟨rfl, rfl, rfl, rfl, rfl, ?_⟩
+  intro l' c' h1 h2
+  simp only [VTState.resize, h1, h2, and_self, if_true]
+
+example := resize_wf exScreen exScreen_wf 2 9 (freshGrid 9) (by decide) (by decide)
+
 /-- THE PROPERTY for whole histories, with the pen assumption discharged: starting from a well-formed screen whose
     reverse video and background agree with the driver's cached pen (as after start-up: `CSI m`, empty cache), every
     drawing request of a history of requests and pen changes, each in range at its turn, has exactly the requested
@@ -779,9 +798,64 @@ theorem ops_effect (fx : Fixes) (ops : List Op) (d : Drv) (vt : VTState) (hw : S
       show (stepOp fx (d, vt) (Op.chpen p)).2 =
         { vt with bg := (stepOp fx (d, vt) (Op.chpen p)).2.bg, rv := (stepOp fx (d, vt) (Op.chpen p)).2.rv }
       rw [e, hrun]
+    | resize l c =>
+      obtain ⟨hl, hcc⟩ := hc1
+      have hwf : Spec.WF (vt.resize l c (freshGrid c)) := resize_wf vt hw l c (freshGrid c) hl hcc
+      have := ih { d with lines := l, cols := c } (vt.resize l c (freshGrid c)) hwf
+        (fun h => hcaps h) rfl hpen hc2
+      exact ⟨⟨⟨rfl, rfl, rfl, rfl, rfl⟩, this.1⟩, this.2⟩
+
+/-- non-vacuity of the resize step of `ops_effect`: a scroll on the left half, the window grows from 6 to 9 columns,
+    and the same rectangle (whose right edge is where the screen used to end) is scrolled again -/
+example : AllOpsInContract Fixes.none (⟨⟨false, false, false⟩, 4, 6, PenCache.empty⟩, cexScreen 4 6)
+    [.req (.scroll ⟨0, 0, 4, 6⟩ 1 0), .resize 4 9, .req (.scroll ⟨0, 0, 4, 6⟩ 1 0)] :=
+  ⟨⟨⟨by decide, by decide, by decide, by decide, by decide, by decide, by decide, by decide⟩, fun _ h => absurd h.1 (by decide)⟩,
+   ⟨by decide, by decide⟩,
+   ⟨⟨by decide, by decide, by decide, by decide +kernel, by decide, by decide +kernel, by decide, by decide⟩,
+    fun _ h => absurd h.1 (by decide)⟩, trivial⟩
 
 /-- after start-up: `CSI m` has been sent and the cache is empty -/
 example : Spec.PenInv PenCache.empty (cexScreen 4 6) := ⟨rfl, fun _ h => by cases h⟩
+
+/-! ### The start-up probe: where the hypothesis `Spec.CapsOK` of the scroll theorems comes from -/
+
+/-- The probe clause: whatever DECRPM value the terminal reports for mode 69, a claimed DECSLRM capability means that
+    DECLRMM is set (`accept` = the values `on_modereport` takes for support). -/
+def C09_probe_truthful (accept : List Nat) : Prop := ∀ v : Nat, ProbeTruthful accept v
+
+/-- Exactly the accept lists made of "set" (1) and "permanently set" (3) are truthful. -/
+theorem probe_truthful_iff (accept : List Nat) : C09_probe_truthful accept ↔ ∀ v ∈ accept, v = 1 ∨ v = 3 := by
+  constructor
+  · intro h v hv
+    have := h v (by simpa [slrmCap] using hv)
+    simpa [declrmmOfReply] using this
+  · intro h v hv
+    have hm : v ∈ accept := by simpa [slrmCap] using hv
+    simpa [declrmmOfReply] using h v hm
+
+/-- The unchanged tree (`value == 1 || value == 2`) claims DECSLRM for the reply "reset" (known finding
+    slrm_probe_reset). -/
+theorem probe_reset_counterexample : ¬ C09_probe_truthful [1, 2] := by
+  intro h
+  exact absurd (h 2 (by decide)) (by decide)
+
+/-- With `fixes/C09_slrm_probe_reset.patch` (`value == 1 || value == 3`) the probe is truthful. -/
+theorem probe_truthful_of_fix : C09_probe_truthful [1, 3] :=
+  (probe_truthful_iff [1, 3]).2 (by intro v hv; simp at hv; omega)
+
+/-- Accepting "permanently reset" (4) as well is not. -/
+example : ¬ C09_probe_truthful [1, 2, 3, 4] := fun h => absurd (h 4 (by decide)) (by decide)
+
+/-- A truthful probe gives `Spec.CapsOK` on the screen the reply describes, for the capabilities the driver then
+    works with. -/
+theorem probe_capsOK (accept : List Nat) (v : Nat) (colon rgb : Bool) (vt : VTState)
+    (hvt : vt.declrmm = declrmmOfReply v) (h : ProbeTruthful accept v) :
+    Spec.CapsOK ⟨slrmCap accept v, colon, rgb⟩ vt := by
+  intro hs
+  rw [hvt]
+  exact h hs
+
+example := probe_capsOK [1, 3] 1 false false { exScreen with declrmm := true } rfl (probe_truthful_of_fix 1)
 
 /-! ### The full clauses, and the defects that refute them on the unchanged tree -/
 
